@@ -11,9 +11,7 @@ PREFIX = ('hashseq',)
 LEAN_PROOFS = []
 GEN_ITEMS = ['Hashes']
 TRUSTED = []
-ASSUMPTIONS = ['an explicit bitlen on the final piece after earlier pieces is read by crysp as the total length (lastblock) but checked against the piece (iterblocks): '
-               'outside the property (which passes no bitlen when streaming); compared code<->model only',
-               'padmethod.bitcnt after the FINAL piece is 0 when the padding spilled into an extra block (C09: zero for a pad-only block): compared code<->model only']
+ASSUMPTIONS = ['padmethod.bitcnt after the FINAL piece is 0 when the padding spilled into an extra block (C09: zero for a pad-only block): compared code<->model only']
 
 run_impl = HC.run_impl
 
@@ -104,11 +102,11 @@ def cases(tier, rng):
         yield 'hashseqc %s | fin %s | upd %s' % (alg, hx(p2), hx(p1)), 'error:after final'
         yield 'hashseqc %s | upd %s | fin %s | fin %s' % (alg, hx(p1), hx(p2), hx(p2)), 'error:after final'
         yield 'hashseqc %s | upd %s | fin %s 41' % (alg, hx(p1), hx(p2)), 'error:bitlen>piece'
-        # explicit bit length on the final piece (first piece: the standard applies; later: code<->model)
+        # explicit bit length on the final piece (counts the bits of that piece)
         for L in (1, 7, 8 * 5 - 3):
             yield 'hashseq %s | fin %s %d' % (alg, hx(p2), L), 'bitlen on final'
-            yield 'hashseqc %s | upd %s | fin %s %d' % (alg, hx(p1), hx(p2), L), 'bitlen on final'
-            yield 'hashseqc %s | upd %s | fin %s %d' % (alg, hx(p1), hx(p1 + p2), 8 * B + L), 'bitlen on final'
+            yield 'hashseq %s | upd %s | fin %s %d' % (alg, hx(p1), hx(p2), L), 'bitlen on final'
+            yield 'hashseq %s | upd %s | fin %s %d' % (alg, hx(p1), hx(p1 + p2), 8 * B + L), 'bitlen on final'
 
 
 def shrink(line):
